@@ -145,19 +145,83 @@ func expectedEnc(base int64, lead string) map[string]string {
 	}
 }
 
+// headerHost finds the function holding the `n <= T` chain: the encoder itself or a module
+// function it calls (a shared helper).
+func headerHost(c *Ctx, fn *ssa.Function) *ssa.Function {
+	has := func(f *ssa.Function) bool {
+		n := 0
+		for _, b := range f.Blocks {
+			if iff, ok := b.Instrs[len(b.Instrs)-1].(*ssa.If); ok {
+				if bo, ok := iff.Cond.(*ssa.BinOp); ok && bo.Op == token.LEQ {
+					if k, ok := constBig(bo.Y); ok && k != "1" {
+						n++
+					}
+				}
+			}
+		}
+		return n >= 2
+	}
+	if has(fn) {
+		return fn
+	}
+	for _, b := range fn.Blocks {
+		for _, in := range b.Instrs {
+			if call, ok := in.(*ssa.Call); ok {
+				if f := call.Call.StaticCallee(); f != nil && c.inModule(f) && f.Blocks != nil && has(f) {
+					return f
+				}
+			}
+		}
+	}
+	return nil
+}
+
 func ruleHdrEncoder(c *Ctx, r *RuleResult, fnName string, base int64, lead string) {
 	fn := c.Fn(fnName)
-	stores, lens, _ := encoderHeaders(c, r, fn)
+	host := headerHost(c, fn)
+	if host == nil {
+		r.undecided("%s: no chain of `n <= T` tests found in it or in a function it calls; header form selection not recognised", fnName)
+		return
+	}
+	hostName := c.short(host)
+	stores, lens, _ := encoderHeaders(c, r, host)
+	// every threshold constant the chain uses (also those whose branch has no recognisable stores)
+	thr := map[string]bool{}
+	for _, b := range host.Blocks {
+		if iff, ok := b.Instrs[len(b.Instrs)-1].(*ssa.If); ok {
+			if bo, ok := iff.Cond.(*ssa.BinOp); ok && bo.Op == token.LEQ {
+				if k, ok := constBig(bo.Y); ok {
+					thr[k] = true
+				}
+			}
+		}
+	}
 	exp := expectedEnc(base, lead)
 	wantLen := map[string]int64{"62": base + 1, "258047": base + 4, "68719476735": base + 8}
 	for _, T := range []string{"62", "258047", "68719476735"} {
-		got, ok := stores[T]
-		r.inst("%s: header branch n <= %s: %s", fnName, T, fmtStores(got))
-		if !ok {
+		r.inst("%s (in %s): header form switches at n <= %s", fnName, hostName, T)
+		r.oblig(thr[T])
+		if !thr[T] {
+			r.find(fnName+":header threshold "+T, c.pos(host.Pos()), "%s has no branch `n <= %s`; the format switches header form at 62, 258047 (the largest 18-bit value whose leading sextet is not the marker 63) and 68719476735", hostName, T)
+		}
+	}
+	for T := range thr {
+		if _, ok := exp[T]; !ok && T != "1" {
 			r.oblig(false)
-			r.find(fnName+":header threshold "+T, c.pos(fn.Pos()), "%s has no branch `n <= %s`; the format switches header form at 62, 258047 and 68719476735", fnName, T)
+			r.find(fnName+":unexpected header threshold "+T, c.pos(host.Pos()), "%s switches header form at n <= %s, which is not a threshold of the format (62, 258047, 68719476735)", hostName, T)
+		}
+	}
+	if host != fn {
+		// a shared helper appends the header: positions are relative, the byte layout is not recognised here
+		r.undecided("%s writes the header through %s; the byte layout of a helper built with append/loops is not recognised (thresholds were checked)", fnName, hostName)
+		return
+	}
+	for _, T := range []string{"62", "258047", "68719476735"} {
+		got, ok := stores[T]
+		if !ok {
 			continue
 		}
+		r.inst("%s: header branch n <= %s: %s", fnName, T, fmtStores(got))
 		okS := fmtStores(got) == exp[T]
 		r.oblig(okS)
 		if !okS {
@@ -167,12 +231,6 @@ func ruleHdrEncoder(c *Ctx, r *RuleResult, fnName string, base int64, lead strin
 		r.oblig(okL)
 		if !okL {
 			r.find(fnName+":header length for n<="+T, c.pos(fn.Pos()), "%s allocates %d header bytes for n <= %s; the format prescribes %d", fnName, lens[T], T, wantLen[T])
-		}
-	}
-	for T := range stores {
-		if _, ok := exp[T]; !ok && T != "1" {
-			r.oblig(false)
-			r.find(fnName+":unexpected header threshold "+T, c.pos(fn.Pos()), "%s switches header form at n <= %s, which is not a threshold of the format", fnName, T)
 		}
 	}
 }
